@@ -1,4 +1,5 @@
 import Sm9.Proofs.MontBasic
+import Sm9.Proofs.Divrem
 import Sm9.Proofs.Consts
 /-!
 # C18 — Results do not depend on the build profile
@@ -39,6 +40,12 @@ theorem u512_new_no_carry (c1 c0 m : Nat) (h1 : c1 < W256) (h0 : c0 < W256) (hm 
   have : c1 * m ≤ (W256 - 1) * (W256 - 1) := Nat.mul_le_mul (by omega) (by omega)
   have hW : 0 < W256 := by decide +kernel
   nlinarith
+/-- the two `debug_assert!` self-checks of u512.rs hold on all inputs: `U512::new`'s `!carry`
+    and `divrem`'s reconstruction check -/
+theorem debug_asserts_hold (n m : Nat) (hm0 : 0 < m) (hm : m < W256) (hn : n < W512) :
+    (U512.divrem n m).2 = true := (U512.divrem_spec n m hm0 hm hn).2.2
+theorem u512_new_assert (c1 c0 m : Nat) (h0 : c0 < W256) (h : c1 * m + c0 < W512) :
+    U512.new c1 c0 m = (c1 * m + c0, true) := U512.new_spec c1 c0 m h0 h
 /-- the conditional subtractions never underflow: results of add/sub/double/neg are canonical -/
 theorem no_underflow (a b m : Nat) (hm : m < W256) (hm2 : W256 < 2 * m) (ha : a < m) (hb : b < m) :
     U256.add a b m < m ∧ U256.sub a b m < m ∧ U256.mul2 a m < m ∧ U256.neg a m < m :=
